@@ -9,7 +9,7 @@ starts season k; IrrMngt.depth by a controller write the world made itself.
 import numpy as np
 import pandas as pd
 
-from .common import std_case, config_sig, controller_fn, STATE_MEASURE  # noqa: F401
+from .common import std_case, config_sig, controller_fn, basin_regime, BASIN_PROFILE, STATE_MEASURE  # noqa: F401
 from ..traj import run_trajectory, finish
 from ..domain import classify_exception, innermost_aquacrop_frame
 
@@ -26,6 +26,9 @@ RULE = ("seeded swarm biased to curve-number / germination / top-soil depths off
 PROFILE = {"soil_switch_p": 0.8, "dz_p": 0.5, "calendar_crop_p": 0.4, "n_seasons": [1, 2, 2, 3], "gw": 0.3, "field_p": 0.5,
            "irr_methods": [0, 1, 2, 3, 4, 5, 5], "events_per_year": 3.0, "event_kinds": ["storm", "wet_spell", "drought", "dry_then_wet", "dry_then_wet", "heat_wave", "cold_snap", "et0_spike"], "co2_p": 0.4, "off_season_p": 0.5,
            "crops": None}
+
+LONG_CANOPY_WINDOW_CROPS = ["AlfalfaGDD", "Default", "HydWheatGDD", "Maize", "MaizeGDD", "Quinoa", "SorghumGDD", "SugarCane", "Sunflower",
+                            "SunflowerGDD"]
 
 PROFILE_ARRAYS = ["Comp", "dz", "Layer", "dzsum", "th_fc", "th_s", "th_wp", "Ksat", "Penetrability", "th_dry", "tau", "zBot",
                   "z_top", "zMid", "th_fc_Adj", "aCR", "bCR"]
@@ -119,6 +122,9 @@ def gen_case(rng, tier, idx):
         from ..weather import make_event
         prof = dict(PROFILE, gw=0.0, sat_start_p=0.0, irr_methods=[0], custom_soil_p=0.0, events_per_year=0.5, n_seasons=[1, 2], sensible_planting_p=0.95,
                     iwc_kinds=["Pct"])
+        if rng.random() < 0.7:
+            # crops whose canopy-development window is at least twice the time they need to close the canopy: room to recover
+            prof["crops"] = LONG_CANOPY_WINDOW_CROPS
         case = std_case(rng, prof)
         spec = case["spec"]
         spec["iwc"]["value"] = [rng.choice([20, 30, 40, 50]) for _ in spec["iwc"]["value"]]
@@ -127,20 +133,27 @@ def gen_case(rng, tier, idx):
         sched = []
         for p in planting_dates(spec):
             d0 = (p - parse_date(spec["start"])).days
-            dry = rng.choice([25, 35, 45, 60])
+            dry = rng.choice([12, 18, 25, 32, 40, 60])
             w["events"].append({"kind": "drought", "day": off + d0 - 3, "len": dry + 3 + 120, "mag": 0.0})
             t = dry
             while t < dry + 120:
-                sched.append([fmt_date(p + dt.timedelta(days=t)), rng.choice([20, 30, 40])])
-                t += rng.choice([2, 3, 4, 7])
+                sched.append([fmt_date(p + dt.timedelta(days=t)), rng.choice([25, 35, 45])])
+                t += rng.choice([2, 3, 4])
         spec["irr"] = {"method": 3, "kwargs": {"MaxIrr": 60}, "schedule": sched}
         case["controller"] = None
+        return case
+    if idx % 4 == 3:
+        # flooded basin whose management changes at harvest, off-season simulated: the day the other management takes over
+        case = basin_regime(rng, std_case(rng, dict(PROFILE, **BASIN_PROFILE)))
+        # no state-triggered weather writes here: this check compares the weather matrix around every step
+        case["spec"].pop("reactive", None)
         return case
     return std_case(rng, PROFILE)
 
 
 def run_case(case):
-    spec = case["spec"]
+    spec = dict(case["spec"])
+    spec.pop("reactive", None)
     fired = {}
     ctrl = controller_fn(case.get("controller"), fired)
     viol = []
@@ -169,6 +182,21 @@ def run_case(case):
         st["S"] = S
         if rec.wx[2] > 0:
             st["rainy_adj"] += 1
+        # reach probes: canopy shrunk below its initial size, and full recovery afterwards
+        try:
+            ic = node.model._init_cond
+            k = node.model._clock_struct.season_counter
+            crop = node.model._param_struct.Seasonal_Crop_List[k]
+            if st.get("shrunk_season") != k:
+                st["shrunk"] = False
+            if ic.growing_season and float(ic.cc0_adj) < float(crop.CC0) - 1e-12:
+                st["shrunk"] = True
+                st["shrunk_any"] = True
+                st["shrunk_season"] = k
+            if st.get("shrunk") and ic.growing_season and float(ic.canopy_cover) >= 0.98 * float(crop.CCx):
+                st["recovered"] = True
+        except Exception:
+            pass
 
     def on_update(node, info, cond):
         S = snapshot(node.model)
@@ -217,6 +245,8 @@ def run_case(case):
             res["status"] = "ok"
     res["faults"].update({k: v for k, v in fired.items()})
     res["probes"]["season_start_crossed"] = st["resets"]
+    res["probes"]["canopy_shrunk_below_initial_size"] = int(bool(st.get("shrunk_any")))
+    res["probes"]["canopy_recovered_to_ccx_after_shrinking"] = int(bool(st.get("recovered")))
     if res["status"] == "ok" and (st["resets"] > 0 or st["rainy_adj"] > 0):
         res["nontrivial"] = [config_sig(spec)]
     return finish(res)
